@@ -190,5 +190,22 @@ META.update({
         technique=TECH),
 })
 
+META.update({
+    'C16': dict(
+        text='Theorems Props.C16_round_trip, C16_never_panics, C16_history, C16_parameters (Coq, no axioms): on the model of '
+             'Request.ReadEntity and accessorAt, for every value type and every codec / compressor satisfying the round-trip '
+             'contracts, every registry, default content type, pooled-reader state, Content-Type spelling resolving to the writing '
+             'codec and every declared encoding, reading what was written returns the value; a broken encoding or syntax yields an '
+             'error value (the panic outcome is unreachable); what an earlier request left in the pooled reader never matters. '
+             'PARTIAL: the codecs are assumptions of the theorem; the correspondence carries the weight: values written by '
+             'go-restful\'s own writers are read back through a real container (int64 extremes, unicode), with truncated / corrupt '
+             '/ mislabelled bodies in the same history, both providers, sequentially, on fresh containers and concurrently, all '
+             'equal to the model fed with the standard library\'s own verdicts as oracles.',
+        design_ref='DESIGN.md section 6, C16',
+        note='trusted: Coq kernel, extraction+driver, Go harness; encoding/json|xml and compress/gzip|zlib (assumed contracts; oracles '
+             'tabulated with the standard library)',
+        technique=TECH),
+})
+
 ALL = ['C%02d' % i for i in range(1, 20)]
 NOT_APPLICABLE = [dict(property_id=p, reason=PARTIAL_NOT_YET) for p in ALL if p not in META]
